@@ -33,7 +33,7 @@ ASSUMPTIONS = [
 MUST_REACH = {
     "hist_never": 200, "hist_header_only": 200, "parsed_canonical_identical": 200, "failed_parse_forwardable": 20,
     "noncanonical_zc_message_equal": 20, "eager_parsed": 100, "mut_truncated": 50, "mut_extended": 20, "mut_flipped": 50,
-    "mut_rezero": 20, "templates_covered": 481,
+    "mut_rezero": 20, "templates_covered": 481, "hist_take": 200,
 }
 
 _ser = UDPMessageSerializer()
@@ -42,7 +42,7 @@ _es = Settings()
 _es.ENABLE_DEFERRED_PACKET_PARSING = False
 _eager = UDPMessageDeserializer(settings=_es)
 
-HISTORIES = ["never", "header", "body", "header+body", "body+body", "body+header", "eager"]
+HISTORIES = ["never", "header", "body", "header+body", "body+body", "body+header", "eager", "take>copy", "take>orig"]
 
 
 def _has_nan(msg) -> bool:
@@ -166,6 +166,24 @@ def check_datagram(ctx, b: bytes, origin):
                 except Exception:
                     ctx.count("eager_rejected")
                     continue
+            elif hist.startswith("take>"):
+                # an addon / waiter takes the still unparsed message (Message.take()), the copy's body is looked at, then the
+                # original's; the copy gets the original's header back (take() clears id and acks by design) and one of the
+                # two is re-encoded
+                orig = _lazy.deserialize(b)
+                cp = orig.take()
+                ctx.count("hist_take")
+                for m2 in (cp, orig):
+                    try:
+                        m2.blocks
+                        parsed = True
+                    except Exception as e:
+                        failed = True
+                        parsed = False
+                        wit["parse_exc"] = repr(e)[:200]
+                        break
+                cp.packet_id, cp.acks, cp.send_flags = orig.packet_id, orig.acks, orig.send_flags
+                msg = cp if hist.endswith("copy") else orig
             else:
                 msg = _lazy.deserialize(b)
                 for op in ([] if hist == "never" else hist.split("+")):
